@@ -143,6 +143,74 @@ fn case(out: &mut Out, g: &GraphModel, strat: &str, cfg: &Cfg, prop: &str, exact
     if obs == "panic" { out.stat("impl-panic"); }
 }
 
+/// CONTENTION family (C01 / C05): layered meshes in which every state of a layer is generated by four parents at about the
+/// same time, checked with many threads: a state must be evaluated exactly once and the evaluated set must be the
+/// reachable set even when several workers generate the same new state simultaneously (insert-if-absent must be ONE
+/// atomic step) or find a shard of the shared map momentarily locked. The visitor only bumps per-state atomic counters,
+/// so it does not serialise the workers. Harness-side oracle (V lines).
+fn contention(out: &mut Out, r: &mut Rng, th: bool) {
+    use std::sync::atomic::{AtomicU32, Ordering};
+    let reps = if th { 12 } else { 3 };
+    for rep in 0..reps {
+        for strat in ["bfs", "dfs", "ondemand"] {
+            let w = 256 + 64 * r.below(5);
+            let layers = 60 + r.below(60);
+            let n = (w * layers).min(65000);
+            let layers = n / w;
+            let n = w * layers;
+            let mut adj: Vec<Vec<Option<u16>>> = vec![vec![]; n];
+            let (m1, m2) = (1 + r.below(7), 3 + 2 * r.below(5));
+            for l in 0..layers - 1 {
+                for i in 0..w {
+                    let s = l * w + i;
+                    let base = (l + 1) * w;
+                    for t in [i, (i + 1) % w, (i + m1) % w, (i * m2 + 1) % w] {
+                        adj[s].push(Some((base + t) as u16));
+                    }
+                    if r.chance(1, 10) { adj[s].push(None); }
+                }
+            }
+            let bnd: Vec<bool> = (0..n).map(|_| !r.chance(1, 60)).collect();
+            let init: Vec<u16> = (0..8).map(|k| (k * (w / 8)) as u16).collect();
+            let g = GraphModel { n, init, adj, bnd, props: vec![GProp { exp: 'a', tbl: vec![true; n] }], panic_at: None };
+            let reach = g.reach();
+            let threads = *r.pick(&[8usize, 12, 16]);
+            let counts: Arc<Vec<AtomicU32>> = Arc::new((0..n).map(|_| AtomicU32::new(0)).collect());
+            let c2 = counts.clone();
+            let g2 = g.clone();
+            if rep % 2 == 1 { stateright::verif::set_perturbation(r.next() | 1); }
+            let res = catch_unwind(AssertUnwindSafe(move || {
+                let b = g2.clone().checker().threads(threads).visitor(move |p: stateright::Path<u16, u16>| {
+                    c2[*p.last_state() as usize].fetch_add(1, Ordering::Relaxed);
+                });
+                match strat {
+                    "bfs" => { let c = b.spawn_bfs().join(); (c.unique_state_count(), c.state_count()) }
+                    "dfs" => { let c = b.spawn_dfs().join(); (c.unique_state_count(), c.state_count()) }
+                    _ => { let c = b.spawn_on_demand(); c.run_to_completion(); let c = c.join(); (c.unique_state_count(), c.state_count()) }
+                }
+            }));
+            stateright::verif::set_perturbation(0);
+            let desc = format!("contention mesh w={} layers={} reach={} threads={} strategy={} seed={} rep={}", w, layers, reach.len(), threads, strat, seed(), rep);
+            match res {
+                Err(_) => out.v("contention-panic", &desc),
+                Ok((uniq, count)) => {
+                    let twice = (0..n).filter(|s| counts[*s].load(Ordering::Relaxed) > 1).count();
+                    let evaluated: Vec<u16> = (0..n).filter(|s| counts[*s].load(Ordering::Relaxed) > 0).map(|s| s as u16).collect();
+                    if twice > 0 { out.v("contention-state-evaluated-twice", &format!("{} states-evaluated-more-than-once={}", desc, twice)); }
+                    if evaluated != reach { out.v("contention-evaluated-set-not-reachable-set", &format!("{} evaluated={}", desc, evaluated.len())); }
+                    if uniq != reach.len() { out.v("contention-unique-count", &format!("{} uniq={}", desc, uniq)); }
+                    if count < uniq { out.v("contention-state-count-below-unique", &desc); }
+                    out.stat("contention-runs");
+                    out.stat(&format!("contention-{}-threads-{}", strat, threads));
+                    out.stat_n("contention-states-evaluated", evaluated.len() as u64);
+                    out.distinct(&(w, layers, m1, m2, threads, strat, rep));
+                    if rep == 0 { out.sample(&desc); }
+                }
+            }
+        }
+    }
+}
+
 fn main() {
     quiet_panics();
     let mut out = Out::new();
@@ -150,6 +218,11 @@ fn main() {
     let th = thorough();
     let prop = arg_str("--prop").unwrap_or("c01".into());
     let strategies = ["bfs", "dfs", "ondemand"];
+    if prop == "c05" {
+        contention(&mut out, &mut r, th);
+        out.finish();
+        return;
+    }
 
     // ---- 1. exhaustive small scope ---------------------------------------------------------
     let mk_props = |n: usize, k: usize| -> Vec<GProp> {
@@ -304,6 +377,11 @@ fn main() {
                 }
             }
         }
+    }
+
+    if prop == "c01" {
+        let mut r2 = r.fork();
+        contention(&mut out, &mut r2, th);
     }
 
     // ---- 4. single-threaded runs on LONG and WIDE graphs (more than one 1500-job block) ----------------
